@@ -1,126 +1,46 @@
-// Command symgo runs verification harnesses symbolically over /repo's current working tree.
+// Command symgo runs the verification harnesses of one property symbolically over /repo's
+// current working tree (see /verif/DESIGN.md).
 package main
 
 import (
 	"flag"
 	"fmt"
 	"os"
-	"path/filepath"
-	"regexp"
-	"sort"
-	"strings"
-	"time"
+	"strconv"
 
-	"symgo/interp"
+	"symgo/driver"
 )
 
 func main() {
-	var (
-		repo     = flag.String("repo", "/repo", "repository root")
-		verifDir = flag.String("verif", "/verif", "verification root")
-		pkg      = flag.String("pkg", "rel", "package directory relative to repo")
-		run      = flag.String("run", ".*", "regexp of harness function names (Verif...)")
-		workers  = flag.Int("workers", 16, "parallel workers")
-		steps    = flag.Int("steps", 2_000_000, "step budget per path")
-		paths    = flag.Int("paths", 200000, "path budget per harness")
-		qto      = flag.Int("qtimeout", 10000, "solver timeout per query (ms)")
-		verbose  = flag.Bool("v", false, "verbose")
-		solver   = flag.String("solver", "z3 -in", "solver command")
-		dump     = flag.String("dump-smt", "", "directory for SMT-LIB transcripts")
-	)
+	var opt driver.Options
+	flag.StringVar(&opt.Repo, "repo", "/repo", "repository root")
+	flag.StringVar(&opt.Verif, "verif", "/verif", "verification root")
+	flag.StringVar(&opt.Property, "property", "", "property id (C01..C20, or Smoke)")
+	flag.StringVar(&opt.Tier, "tier", "", "quick|thorough (default: $VERIF_TIER or quick)")
+	flag.IntVar(&opt.Workers, "workers", 16, "parallel workers")
+	flag.BoolVar(&opt.Verbose, "v", false, "verbose")
+	flag.StringVar(&opt.Run, "run", "", "regexp restricting harness functions")
+	flag.BoolVar(&opt.NoReplay, "no-replay", false, "skip native replay (debugging only)")
+	flag.IntVar(&opt.PathBudget, "paths", 0, "override path budget")
+	flag.IntVar(&opt.StepBudget, "steps", 0, "override step budget")
+	flag.IntVar(&opt.QTimeout, "qtimeout", 0, "override solver timeout per query (ms)")
+	flag.StringVar(&opt.DumpSMT, "dump-smt", "", "directory for SMT-LIB transcripts")
 	flag.Parse()
-	t0 := time.Now()
-	overlay := map[string][]byte{}
-	hdir := filepath.Join(*verifDir, "harness", *pkg)
-	ents, err := os.ReadDir(hdir)
-	if err != nil {
-		fmt.Fprintln(os.Stderr, err)
+	if opt.Property == "" && flag.NArg() > 0 {
+		opt.Property = flag.Arg(0)
+	}
+	if opt.Tier == "" {
+		opt.Tier = os.Getenv("VERIF_TIER")
+	}
+	if opt.Tier != "thorough" {
+		opt.Tier = "quick"
+	}
+	if s := os.Getenv("VERIF_SEED"); s != "" {
+		opt.Seed, _ = strconv.ParseInt(s, 10, 64)
+	}
+	if opt.Property == "" {
+		fmt.Fprintln(os.Stderr, "usage: symgo -property C03 [-tier quick|thorough]")
 		os.Exit(2)
 	}
-	pkgName := ""
-	for _, e := range ents {
-		if !strings.HasSuffix(e.Name(), ".go") || strings.HasSuffix(e.Name(), "_test.go") {
-			continue
-		}
-		b, err := os.ReadFile(filepath.Join(hdir, e.Name()))
-		if err != nil {
-			fmt.Fprintln(os.Stderr, err)
-			os.Exit(2)
-		}
-		overlay[filepath.Join(*repo, *pkg, e.Name())] = b
-		if m := regexp.MustCompile(`(?m)^package (\w+)`).FindSubmatch(b); m != nil {
-			pkgName = string(m[1])
-		}
-	}
-	overlay[filepath.Join(*repo, *pkg, "zz_verif_api_sym.go")] = interp.SymShim(pkgName)
-	cfg := interp.Config{
-		SolverCmd: strings.Fields(*solver), QueryTimeout: *qto, MaxSteps: *steps, MaxPaths: *paths, MaxSymSize: 8,
-		Workers: *workers, Verbose: *verbose, DumpSMT: *dump,
-	}
-	sh, pkgs, err := interp.Load(interp.LoadOptions{
-		RepoDir: *repo, Patterns: []string{"./" + *pkg}, Overlay: overlay,
-		ModelsDir: filepath.Join(*verifDir, "models"), ModulePath: "github.com/arr-ai/arrai",
-	}, cfg)
-	if err != nil {
-		fmt.Fprintln(os.Stderr, "load:", err)
-		os.Exit(2)
-	}
-	fmt.Fprintf(os.Stderr, "loaded in %.1fs\n", time.Since(t0).Seconds())
-	re := regexp.MustCompile(*run)
-	bad := 0
-	for _, p := range pkgs {
-		if p == nil {
-			continue
-		}
-		var names []string
-		for name := range p.Members {
-			if strings.HasPrefix(name, "Verif") && re.MatchString(name) {
-				names = append(names, name)
-			}
-		}
-		sort.Strings(names)
-		for _, name := range names {
-			fn := p.Func(name)
-			if fn == nil {
-				continue
-			}
-			res := sh.Explore(fn)
-			fmt.Printf("%s: paths=%d decisions=%d assertQ=%d (unsat %d, sat %d, conc-true %d) feasQ=%d unknown=%d assume-ends=%d steps=%d solver=%.1fs wall=%.1fs\n",
-				name, res.Paths, res.Decisions, res.AssertQ, res.AssertUnsat, res.AssertSat, res.AssertConcTrue, res.FeasQ, res.Unknown, res.AssumeEnds, res.Steps,
-				res.SolverTime.Seconds(), res.Wall.Seconds())
-			for _, s := range res.Incomplete {
-				fmt.Printf("  INCOMPLETE %s\n", s)
-				bad++
-			}
-			if *verbose {
-				for _, s := range res.InitPoison {
-					fmt.Printf("  init-poison %s\n", s)
-				}
-			}
-			var covers []string
-			for c, n := range res.Covers {
-				covers = append(covers, fmt.Sprintf("%s=%d", c, n))
-			}
-			sort.Strings(covers)
-			fmt.Printf("  covers: %s\n", strings.Join(covers, " "))
-			for _, v := range res.Violations {
-				fmt.Printf("  VIOLATION-CANDIDATE %s [%s] %s known=%q nondet=%v\n", v.Label, v.Kind, v.Msg, v.Known, v.Nondet)
-				bad++
-			}
-			if res.SolverErrors > 0 {
-				fmt.Printf("  solver errors: %d last=%s\n", res.SolverErrors, res.LastSolverError)
-			}
-			var ps []string
-			for s, n := range res.PanicSites {
-				ps = append(ps, fmt.Sprintf("%s x%d", s, n))
-			}
-			sort.Strings(ps)
-			for _, s := range ps {
-				fmt.Printf("  panic-site %s\n", s)
-			}
-		}
-	}
-	if bad > 0 {
-		os.Exit(1)
-	}
+	os.Exit(driver.Run(opt))
 }
